@@ -4,6 +4,7 @@ import copy
 import itertools
 import math
 import os
+import random
 
 from harness import core, py2lean, instantiate
 from harness.core import Outcome, f2b, b2f
@@ -1014,12 +1015,19 @@ def oracle(ctx, widened):
     # --- horizon mask handed over at the creation of the station (every kind of object x every entry point), and its life afterwards
     combos = [(ok, en) for en in MASK_ENTRIES for ok in MASK_OBJ_KINDS]
     rng.shuffle(combos)
+    # a second station lives through all of it: what happens to the others is none of its business
+    baz, bel, _bk = gen_mask(rng)
+    by = new_station(-35.0, 149.0, 600.0, mask_given=("list", baz, bel))
     for i in range(1500 if big else 144):
         okind, entry = combos[i % len(combos)]
         az, el, mkind = gen_mask(rng)
         given = MASK_OBJ_KINDS[okind] in ("seq", "arr")
         ops = gen_mask_history(rng, az if given else [], el if given else [], rng.choice([0, 1, 2, 3]) if given else 2, strict=True, n_reads=6)
         check_mask_given(out, rng, okind, entry, az, el, ops, mkind, parent=rng.choice(PARENTS), equatorial=rng.random() < 0.12)
+        x, akind = gen_azimuths(rng, baz, 1)[0]
+        check_mask_value(out, real_op(rng, by, ("Q", x, akind)), baz, bel, x, "conv", akind, "given-at-create_station-other-stations-created-since",
+                         {"okind": "list", "entry": "create_station", "given": [baz, bel], "ops": [["Q", x, akind]], "other_stations": i + 1})
+    drop_station(by)
     out.sample({"checks": "ellipsoid membership + normal, position formula, rest in ITRF/PEF/TIRF, omega x r in TOD/CIRF, finite-difference velocity in inertial frames, "
                           "range/elevation/azimuth/range-rate/axes vs extended-precision ENU, the four measures, inertial targets, WGS-84 constants, mask vs np.interp "
                           "(table assigned / given at creation as list, tuple, rows of arrays ... through create_station or TopocentricFrame / re-assigned / written in place), "
@@ -1621,6 +1629,7 @@ def correspondence(ctx):
         if real[2] != s1:
             out.fail("mask-life-final-store", "station.mask after the history differs from the model", inp, observed=real[2], expected=s1)
 
+    prev = [None, None, None, None]
     for i in range(ctx.n(260, 6000)):
         okind, entry = gen_mask_arg(rng)
         u = rng.random()
@@ -1640,7 +1649,21 @@ def correspondence(ctx):
             s0 = real_store(stn)
             reps = [real_op(rng, stn, op) for op in ops]
             real = (s0, [r for r in reps if r is not None], real_store(stn))
-            drop_station(stn)
+            # the station of the previous history is still alive: it answers as it did (no state shared between stations)
+            if prev[0] is not None:
+                pst, pop, prep, pinp = prev
+                again = real_op(random.Random(0), pst, pop)
+                out.count(key=("other", tuple(pinp["given"][0][:2]), pop[1]), kind="mask-life-other-station", nontrivial=isinstance(prep, float))
+                if not (again == prep or (isinstance(again, float) and isinstance(prep, float) and math.isnan(again) and math.isnan(prep))):
+                    out.fail("mask-life-other-station", "a station answers get_mask differently after ANOTHER station was created and used (state shared between stations)",
+                             dict(pinp, then_other_station={"okind": okind, "entry": entry, "given": [list(az), list(el)]}, asked_again=list(pop)), observed=again, expected=prep)
+                drop_station(pst)
+                prev[0] = None
+            lastq = next((o for o in reversed(ops) if o[0] == "Q"), None)
+            if lastq is not None:
+                prev[:] = [stn, lastq, real_op(random.Random(0), stn, lastq), {"okind": okind, "entry": entry, "parent": parent, "equatorial": equat, "given": [list(az), list(el)], "ops": [list(o) for o in ops]}]
+            else:
+                drop_station(stn)
         tb = lambda a_, e_: [str(len(a_))] + [f2b(c) for pr in zip(a_, e_) for c in pr]
         toks = ["c11maskrun"] + {"absent": ["absent"], "eseq": ["eseq"], "seq": ["seq"] + tb(taz, tel), "arr": ["arr"] + tb(taz, tel)}[cls]
         for op in ops:
@@ -1649,10 +1672,12 @@ def correspondence(ctx):
         req = " ".join(toks)
         inp = {"okind": okind, "entry": entry, "parent": parent, "equatorial": equat, "given": [list(az), list(el)], "ops": [list(o) for o in ops]}
         add(req, lambda rep, real=real, inp=inp: run_check(rep, real, inp))
-        out.count(key=req, kind="mask-life", okind=okind, entry=entry, table=mkind, n_ops=len(ops), npoints=len(az),
+        out.count(key=req, kind="mask-life", okind=okind, entry=entry, table=mkind, n_ops=f"{len(ops) // 10 * 10}+", npoints=len(az),
                   nontrivial=cls == "seq" or any(o[0] == "A" for o in ops))
         for o in ops:
             out.tally("mask-life-op=" + o[0] + (":" + o[2] if o[0] == "Q" else ""))
+    if prev[0] is not None:
+        drop_station(prev[0])
     replies = core.Driver(ID).run(reqs)
     for req, fn, rep in zip(reqs, checks, replies):
         fn(rep)
